@@ -121,7 +121,16 @@ def _graphs(nnx):
     m.step = Step(zeta=a, alpha=nnx.Param(jnp.array(7.0)), mid=b)
     m.od = collections.OrderedDict([('z', nnx.Param(jnp.array(3.0))), ('a', b), ('m', 5)])
     return m
-  return dict(hooked_var=g_hooked_var, namedtuple=g_namedtuple, unsorted_pytree=g_unsorted_pytree, tree=g_tree, shared_var=g_shared_var, shared_module=g_shared_module, cycle=g_cycle, dict_order=g_dict_order, var_cycle_shared=g_var_cycle_shared)
+  def g_long_list():
+    m = M()
+    m.blocks = []
+    for i in range(12):                                 # index 10, 11 sort before 2 as strings
+      b = M()
+      b.w = (nnx.Param if i % 2 == 0 else nnx.BatchStat)(jnp.array(float(i)), tag=f't{i}')
+      m.blocks.append(b)
+    m.table = {2: nnx.Param(jnp.array(20.0)), 3: nnx.BatchStat(jnp.array(30.0)), 10: nnx.Param(jnp.array(100.0))}
+    return m
+  return dict(long_list=g_long_list, hooked_var=g_hooked_var, namedtuple=g_namedtuple, unsorted_pytree=g_unsorted_pytree, tree=g_tree, shared_var=g_shared_var, shared_module=g_shared_module, cycle=g_cycle, dict_order=g_dict_order, var_cycle_shared=g_var_cycle_shared)
 
 
 def _first_paths(nnx, root):
@@ -201,6 +210,19 @@ def _check(nnx, name, build):
     return 'update replaced Variable objects instead of updating them in place'
   for (p, v), (_, old) in zip(ref2, ref):
     pass
+  # update from a PURE dict (raw leaves, e.g. a restored checkpoint): same rule - in place, identity and Variable types kept
+  try:
+    pure = nnx.to_pure_dict(nnx.state(g))
+    pure = jax.tree.map(lambda x: x + 1, pure)
+    types_before = [type(v).__name__ for _, v in ref2]
+    nnx.update(g, pure)
+    ref3 = _first_paths(nnx, g)
+    if [id(v) for _, v in ref3] != ids_before or [type(v).__name__ for _, v in ref3] != types_before:
+      return f'update from a pure dict replaced / dropped Variables: {[(p, type(v).__name__) for p, v in ref3]} (before: {[(p, t) for (p, _), t in zip(ref2, types_before)]})'
+    for _, v in ref3:
+      v.value = v.value - 1          # undo, so that the value check below sees the +10 state
+  except ValueError:
+    pass       # graphs with Variables held directly by containers may refuse raw leaves
   vals = [float(v.value) for _, v in ref2]
   want_vals = [float(x) + 0 for x in vals]
   if any(abs(float(v.value) - (10 + w)) > 1e-6 for (_, v), w in zip(ref2, [float(x) - 10 for x in vals])):
@@ -241,7 +263,7 @@ def run(tier, seed):
         msg = f'raised {e!r} ' + traceback.format_exc()[-300:]
       if msg:
         fails.append(dict(inputs=dict(graph=name, check=what), observed=msg[:500], violated=what))
-  return dict(name=NAME, cases=cases, distinct=cases, bound='9 object graphs (tree, shared Variable, shared Module, cycles, non-alphabetical dict, Variable shared across a cycle, Variable with a get-value hook, named tuple of sub-modules, named tuple / OrderedDict with non-alphabetical keys) x split/merge/state/clone/update/pop',
+  return dict(name=NAME, cases=cases, distinct=cases, bound='10 object graphs (incl. a 12-element module list and an int-keyed dict) (tree, shared Variable, shared Module, cycles, non-alphabetical dict, Variable shared across a cycle, Variable with a get-value hook, named tuple of sub-modules, named tuple / OrderedDict with non-alphabetical keys) x split/merge/state/clone/update/pop',
               failures=fails, error=None)
 
 
